@@ -10,6 +10,7 @@ import (
 	"sort"
 	"strconv"
 	"strings"
+	"sync"
 	"time"
 
 	"bngvc/govc"
@@ -55,6 +56,8 @@ type Baseline struct {
 	// Kept records, per function, the auto-invariant candidates that survived Houdini
 	// on the unchanged tree ("loopkey: desc"); quick runs start from this set.
 	Kept map[string][]string `json:"kept_candidates,omitempty"`
+	// DeadReturns: return statements (by canary id) that are unreachable on the unchanged tree
+	DeadReturns []string `json:"dead_returns,omitempty"`
 }
 
 func baselinePath(id string) string { return filepath.Join(verifDir, "spec", id+".baseline.json") }
@@ -196,6 +199,12 @@ func (r *propRun) exec() int {
 			blClean[f] = true
 		}
 	}
+	blDead := map[string]bool{}
+	if bl != nil {
+		for _, id := range bl.DeadReturns {
+			blDead[id] = true
+		}
+	}
 	blUndecided := map[string]bool{}
 	if bl != nil && r.tier == "quick" && !r.update {
 		for _, id := range bl.Undecided {
@@ -219,7 +228,52 @@ func (r *propRun) exec() int {
 	seenKnown := map[string]bool{}
 	seenFunc := map[string]bool{}
 
-	for _, u := range units {
+	// VC generation and solving of the units run concurrently (each unit has its own
+	// context); classification, replay and reporting below stay sequential and ordered
+	mkOpt := func(u Unit) govc.Options {
+		opt := govc.Options{Property: def.ID, Canary: true, ServiceLoops: map[string]bool{}}
+		for _, l := range def.ServiceLoops {
+			opt.ServiceLoops[l] = true
+		}
+		if u.Sweep {
+			opt.Sweep, opt.NoPanic, opt.Variants = true, true, true
+		} else {
+			opt.AutoInv = true
+		}
+		return opt
+	}
+	outcomes := make([]*FuncOutcome, len(units))
+	{
+		par := runtime.NumCPU() / 3
+		if par < 1 {
+			par = 1
+		}
+		sem := make(chan struct{}, par)
+		var wg sync.WaitGroup
+		for i, u := range units {
+			if r.only != "" && !strings.HasPrefix(u.Func, r.only) {
+				continue
+			}
+			fi := prog.Funcs[u.Func]
+			if fi == nil {
+				continue
+			}
+			var seedKept []string
+			if bl != nil && !r.update {
+				seedKept = bl.Kept[u.Func]
+			}
+			i, u := i, u
+			wg.Add(1)
+			sem <- struct{}{}
+			go func() {
+				defer wg.Done()
+				defer func() { <-sem }()
+				outcomes[i] = runner.VerifyFunctionSeeded(prog, fi, mkOpt(u), seedKept)
+			}()
+		}
+		wg.Wait()
+	}
+	for ui, u := range units {
 		if r.only != "" && !strings.HasPrefix(u.Func, r.only) {
 			seenFunc[u.Func] = true
 			continue
@@ -230,20 +284,7 @@ func (r *propRun) exec() int {
 			continue
 		}
 		seenFunc[u.Func] = true
-		opt := govc.Options{Property: def.ID, Canary: true, ServiceLoops: map[string]bool{}}
-		for _, l := range def.ServiceLoops {
-			opt.ServiceLoops[l] = true
-		}
-		if u.Sweep {
-			opt.Sweep, opt.NoPanic, opt.Variants = true, true, true
-		} else {
-			opt.AutoInv = true
-		}
-		var seedKept []string
-		if bl != nil && !r.update {
-			seedKept = bl.Kept[u.Func]
-		}
-		fo := runner.VerifyFunctionSeeded(prog, fi, opt, seedKept)
+		fo := outcomes[ui]
 		if newBL.Kept == nil {
 			newBL.Kept = map[string][]string{}
 		}
@@ -269,7 +310,18 @@ func (r *propRun) exec() int {
 			r.solverTime += res.R.TimeS
 			if o.Canary {
 				if res.R.Status == "unsat" {
-					r.broken = append(r.broken, "vacuity: exit of "+u.Func+" is unreachable under the assumed contracts")
+					if strings.Contains(o.ID, "return_reachable") {
+						// one of several returns is unreachable: recorded at baseline time (defensive
+						// returns exist), an alarm when a return that was reachable no longer is
+						newBL.DeadReturns = append(newBL.DeadReturns, o.ID)
+						if r.update {
+							fmt.Printf("note: %s is unreachable under the assumed contracts (recorded)\n", o.ID)
+						} else if !blDead[o.ID] {
+							r.broken = append(r.broken, "vacuity: "+o.ID+" became unreachable under the assumed contracts and invariants")
+						}
+					} else {
+						r.broken = append(r.broken, "vacuity: exit of "+u.Func+" is unreachable under the assumed contracts")
+					}
 				}
 				continue
 			}
@@ -470,22 +522,22 @@ func (r *propRun) writeEvidence() error {
 		r.samples = []map[string]string{{"note": "no discharged obligation"}}
 	}
 	cov := map[string]interface{}{
-		"obligations":            r.nClaimed,
-		"discharged":             r.nDischarged,
-		"checker_cmd":            fmt.Sprintf("/verif/bin/bngvc check -property %s -tier %s", def.ID, r.tier),
-		"trusted_base":           trusted,
-		"samples":                r.samples,
-		"functions_under_contract": r.funcsUnder,
-		"functions_outside_subset": r.rejected,
-		"known_finding_obligations": knownIDs,
+		"obligations":                       r.nClaimed,
+		"discharged":                        r.nDischarged,
+		"checker_cmd":                       fmt.Sprintf("/verif/bin/bngvc check -property %s -tier %s", def.ID, r.tier),
+		"trusted_base":                      trusted,
+		"samples":                           r.samples,
+		"functions_under_contract":          r.funcsUnder,
+		"functions_outside_subset":          r.rejected,
+		"known_finding_obligations":         knownIDs,
 		"undecided_obligations_not_claimed": undecided,
-		"undecided_clauses":      def.Undecided,
-		"bounded":                def.Bounded,
-		"discharged_by_solver":   bySolver,
-		"solver_time_s":          r.solverTime,
-		"abstractions_applied":   notes,
-		"integers":               "mathematical integers with exact two's-complement wrap-around at every fixed-width operation (8/16/32/64 bit); bitwise and/or/xor over-approximated by range facts unless operands are bit-disjoint",
-		"explanation":            def.Explanation,
+		"undecided_clauses":                 def.Undecided,
+		"bounded":                           def.Bounded,
+		"discharged_by_solver":              bySolver,
+		"solver_time_s":                     r.solverTime,
+		"abstractions_applied":              notes,
+		"integers":                          "mathematical integers with exact two's-complement wrap-around at every fixed-width operation (8/16/32/64 bit); bitwise and/or/xor over-approximated by range facts unless operands are bit-disjoint",
+		"explanation":                       def.Explanation,
 	}
 	for k, v := range r.extra {
 		cov[k] = v
